@@ -198,6 +198,12 @@ def lift_group_table_by_value(facts):
         r_ty = facts.norm(b.local_ty(0))
         if a_ty.endswith('wallpaper::WallpaperGroups') and 'wallpaper::WallpaperGroup<' in r_ty + '<' and 'WallpaperGroups' not in r_ty:
             cands.append(b)
+    if len(cands) > 1:
+        # the CLI's lookup is the entry point; pub helpers it is built from (a `group()` method, a `From` impl) are spliced
+        # into it and also kept as functions of their own
+        entry = [c for c in cands if c.path.endswith('get_wallpaper_group')]
+        if len(entry) == 1:
+            cands = entry
     if len(cands) != 1:
         return None, None, ['expected exactly one function from WallpaperGroups to WallpaperGroup, found %d' % len(cands)]
     b = cands[0]
